@@ -1,9 +1,13 @@
 package props
 
 import (
+	"bytes"
 	"fmt"
+	"github.com/XiXi-2024/xixi-kv/vhook"
 	"os"
 	"path/filepath"
+	"sync/atomic"
+	"time"
 
 	kv "github.com/XiXi-2024/xixi-kv"
 	"verif/harness/core"
@@ -19,7 +23,7 @@ func init() { core.Register(c20{}) }
 func (c20) ID() string    { return "C20" }
 func (c20) Level() string { return "exploration" }
 func (c20) Rule() string {
-	return "cases = generated histories (rotated files, batches, values whose last bytes are zero, tombstones of keys ending in 0x00, adopted merges so that a hint file is in the directory, un-adopted merge directories) under both I/O types (every eighth case with the relative DirPath data, whose text re-occurs in every data-file name) with 1..5 Backup calls interleaved with continued writing (in every third case all backups go into the SAME directory, which then already holds the previous backup, with merges adopted in between so that source files shrink; every sixth case first fills many files with uniformly sized records, backs up between a finished Merge and its adoption and again after the adoption, when rewritten files have replaced originals of the same byte size); at each Backup the model is snapshotted; the copy is opened WHILE the source is still open (it must not carry the lock), dumped against the snapshot, written to and restarted (must not affect the source), and closed; the source then continues, deliberately with a value larger than the space left on the active file's last 4 KiB page, a multi-block value, enough data to rotate, and a restart, and is dumped against the model after each. Every case runs in a worker process: the death of the worker (SIGBUS on a truncated mapping) is a violation attributed to the open case. Non-trivial: >=2 backups, >=1 taken with >=3 data files and >=1 after an adopted merge; distinct = hash of (config, op list)"
+	return "cases = generated histories (rotated files, batches, values whose last bytes are zero, tombstones of keys ending in 0x00, adopted merges so that a hint file is in the directory, un-adopted merge directories) under both I/O types (every eighth case with the relative DirPath data, whose text re-occurs in every data-file name) with 1..5 Backup calls interleaved with continued writing (in every third case all backups go into the SAME directory, which then already holds the previous backup, with merges adopted in between so that source files shrink; every sixth case first fills many files with uniformly sized records, backs up between a finished Merge and its adoption and again after the adoption, when rewritten files have replaced originals of the same byte size); at each Backup the model is snapshotted; the copy is opened WHILE the source is still open (it must not carry the lock), dumped against the snapshot, written to and restarted (must not affect the source), and closed; the source then continues, deliberately with a value larger than the space left on the active file's last 4 KiB page, a multi-block value, enough data to rotate, and a restart, and is dumped against the model after each. In every fourth case (thorough: every 16th) a writer goroutine puts a numbered sequence of keys while 30 (mapped I/O: 4) further backups are taken: each must open to a prefix of that sequence between what was acknowledged at the call and what was issued at the return. Every case runs in a worker process: the death of the worker (SIGBUS on a truncated mapping) is a violation attributed to the open case. Non-trivial: >=2 backups, >=1 taken with >=3 data files and >=1 after an adopted merge; distinct = hash of (config, op list)"
 }
 func (c20) Assumptions() []string {
 	return []string{"process death is attributed through the worker journal", "the copy is opened with the source's configuration and with the other I/O type alternately"}
@@ -44,7 +48,11 @@ func (c20) Cases(tier string, seed uint64) []core.Case {
 			cfg.DataFileSize = 8 << 10
 			cfg.FileIO = byte((i / 6) % 2) // both back-ends (the mapped one touches every file at Open)
 		}
-		out = append(out, core.Case{Index: i, ID: fmt.Sprintf("c20-%05d", i), Seed: r.U64(), Data: seqCase{Cfg: cfg, NOps: r.Range(30, 150), NKeys: r.Range(3, 9)}})
+		conc := 0 // backups concurrent with a writer: every fourth case (thorough: every 16th)
+		if (tier != "thorough" && i%4 == 1) || i%16 == 1 {
+			conc = 1
+		}
+		out = append(out, core.Case{Index: i, ID: fmt.Sprintf("c20-%05d", i), Seed: r.U64(), Data: seqCase{Cfg: cfg, NOps: r.Range(30, 150), NKeys: r.Range(3, 9), Flag: conc}})
 	}
 	return out
 }
@@ -264,6 +272,114 @@ func (c20) Run(c core.Case, w *core.Worker) core.Result {
 		nbk++
 		doBackup(nbk)
 	}
+	if sc.Flag == 1 && sc.Cfg.DataFileSize <= 64<<10 && !s.Dead && s.DB != nil {
+		// Backup WHILE a writer runs: one goroutine puts seq00000, seq00001, ... (values sized so
+		// that the active file rotates every few puts); every backup taken meanwhile must open
+		// to a PREFIX of that sequence no shorter than what was acknowledged when Backup was
+		// called and no longer than what had been issued when it returned
+		db := s.DB
+		var acked, issued atomic.Int64
+		stop, done := make(chan struct{}), make(chan struct{})
+		wseed := r.U64()
+		lim := int(sc.Cfg.DataFileSize)
+		if lim > 8<<10 {
+			lim = 8 << 10
+		}
+		seqVal := func(i int) []byte {
+			return core.FillValue(core.Mix(wseed, uint64(i))|1, 50+int(core.Mix(wseed, uint64(i)+7)%uint64(lim/3)))
+		}
+		var werr error
+		go func() {
+			defer close(done)
+			for i := 0; i < 5000; i++ {
+				select {
+				case <-stop:
+					return
+				default:
+				}
+				issued.Store(int64(i + 1))
+				if werr = db.Put([]byte(fmt.Sprintf("seq%05d", i)), seqVal(i)); werr != nil {
+					return
+				}
+				acked.Store(int64(i + 1))
+			}
+		}()
+		nb := 30
+		if sc.Cfg.FileIO == 1 {
+			nb = 4
+		}
+		// widen whatever window Backup may have around its directory copy: the hook event
+		// that precedes the copy is delayed (outside the monitor's own lock)
+		prevH := vhook.Set(nil)
+		vhook.Set(delayCopy{prevH})
+		defer vhook.Set(prevH)
+		for b := 0; b < nb && res.Verdict != "violated"; b++ {
+			bdir := filepath.Join(root, fmt.Sprintf("conc-backup%d", b), "db")
+			a := acked.Load()
+			var err error
+			pv, st := core.Safe(func() { err = db.Backup(bdir) })
+			z := issued.Load()
+			if pv != nil || err != nil {
+				res.Violate(fmt.Sprintf("Backup concurrent with a writer failed: %v %v", pv, err), feat("concurrent"), st)
+				break
+			}
+			bcfg := s.Cfg
+			bcfg.FileIO = 0
+			bdb, err := kv.Open(bcfg.Options(bdir))
+			if err != nil {
+				fail("concurrent", "a backup taken while a writer was running cannot be opened: "+err.Error())
+				break
+			}
+			have := map[int]bool{}
+			maxI := -1
+			for _, k := range bdb.ListKeys() {
+				var i int
+				if n, _ := fmt.Sscanf(string(k), "seq%05d", &i); n == 1 && len(k) == 8 {
+					have[i] = true
+					if i > maxI {
+						maxI = i
+					}
+				}
+			}
+			m := len(have)
+			res.Add("backups_concurrent_with_a_writer", 1)
+			switch {
+			case maxI+1 != m:
+				for i := 0; i <= maxI; i++ {
+					if !have[i] {
+						fail("concurrent", fmt.Sprintf("a backup taken while a writer was running holds seq%05d but lacks the earlier seq%05d (%d keys of the sequence): not a state the source ever had", maxI, i, m))
+						break
+					}
+				}
+			case int64(m) < a || int64(m) > z:
+				fail("concurrent", fmt.Sprintf("a backup taken while a writer was running holds %d keys of the sequence; %d were acknowledged when Backup was called and %d issued when it returned", m, a, z))
+			default:
+				for i := 0; i < m && i < 300; i++ {
+					j := (i * 7919) % m
+					if v, err := bdb.Get([]byte(fmt.Sprintf("seq%05d", j))); err != nil || !bytes.Equal(v, seqVal(j)) {
+						fail("concurrent", fmt.Sprintf("a backup taken while a writer was running: Get(seq%05d) = %d bytes, err=%v", j, len(v), err))
+						break
+					}
+				}
+			}
+			bdb.Close()
+			os.RemoveAll(filepath.Dir(bdir))
+		}
+		close(stop)
+		<-done
+		if werr != nil {
+			fail("concurrent", "the writer running during the backups failed: "+werr.Error())
+		}
+		for i := 0; i < int(acked.Load()); i++ {
+			s.M.Put([]byte(fmt.Sprintf("seq%05d", i)), seqVal(i))
+		}
+		if n := int(issued.Load()); n > int(acked.Load()) && werr == nil {
+			s.M.Put([]byte(fmt.Sprintf("seq%05d", n-1)), seqVal(n-1))
+		}
+		if !s.Dead {
+			s.CheckDump("after the backups concurrent with a writer")
+		}
+	}
 	if !s.Dead {
 		s.Exec(core.Op{Kind: "restart"})
 	}
@@ -276,4 +392,26 @@ func (c20) Run(c core.Case, w *core.Worker) core.Result {
 		res.Sample = map[string]any{"config": sc.Cfg, "ops": firstN(s.Log, 40), "total_ops": len(s.Log)}
 	}
 	return res
+}
+
+// delayCopy delays the hook event that precedes Backup's directory copy.
+type delayCopy struct{ inner vhook.Handler }
+
+func (d delayCopy) IO(kind, path string, off int64, n int, buf []byte) {
+	if d.inner != nil {
+		d.inner.IO(kind, path, off, n, buf)
+	}
+}
+func (d delayCopy) Point(name string) {
+	if d.inner != nil {
+		d.inner.Point(name)
+	}
+}
+func (d delayCopy) FS(kind, a, b string) {
+	if kind == "copydir" {
+		time.Sleep(400 * time.Microsecond)
+	}
+	if d.inner != nil {
+		d.inner.FS(kind, a, b)
+	}
 }
